@@ -10,7 +10,6 @@ PROPS = {}
 MODFILE = {
     "hx-client": {"c13": "src/c13.rs"},
     "hx-protocol": {"c05": "src/c05.rs", "c06": "src/c06.rs", "c14": "src/c14.rs"},
-    "hx-topic-dev": {"pubsub_t": "src/pubsub_t.rs", "reqrep_t": "src/reqrep_t.rs", "router_s": "src/router_s.rs"},
     "hx-topic": {"pubsub_t": "src/pubsub_t.rs", "reqrep_t": "src/reqrep_t.rs", "router_s": "src/router_s.rs"},
     "hx-server": {"fanout": "src/fanout.rs", "router": "src/router.rs", "pubsub": "src/pubsub.rs", "reqrep": "src/reqrep.rs"},
 }
@@ -49,17 +48,7 @@ def _write_if_changed(path, text):
 PREPARE["hx-topic"] = _prepare_hx_topic
 
 
-def _prepare_hx_topic_dev(workroot):
-    import os, shutil
-    d = _prepare_hx_topic(workroot)
-    dd = d + "-dev"
-    if os.path.isdir(dd):
-        for f in ("router.rs", "reqrep.rs"):
-            shutil.copy(os.path.join(d, "generated", f), os.path.join(dd, "generated", f))
-    return dd
 
-
-PREPARE["hx-topic-dev"] = _prepare_hx_topic_dev
 
 FMT_STUB_NOTE = "alloc::fmt::format -> empty String, log::__private_api::log -> no-op (formatting/logging is not the subject)"
 
@@ -72,8 +61,12 @@ NOT_APPLICABLE = {
 
 # properties whose checks are still being built in this session (moved to PROPS when they run clean)
 PENDING = "check under construction (harnesses exist under /verif/engines/kani but are not yet registered as passing); not claimed yet"
-for _p in ("C10", "C11"):
-    NOT_APPLICABLE.setdefault(_p, PENDING)
+_REQREP = ("depends on reqrep::Topic::poll. Its source is compiled against the environment models (hx-topic: reqrep_t harnesses, with std's HashMap "
+           "substituted and header keys reduced to a one-byte type) but CBMC's symbolic execution of the smallest scenario (one replier or one requestor, "
+           "2 polls) does not finish in 30 min / 12 GB: every header-map operation and the String it formats drag large pointer value sets through a "
+           "2350-line MIR body. No answer within reach of a check, hence not claimed; ")
+NOT_APPLICABLE["C10"] = _REQREP + "the single-replier rule lives entirely in that poll loop."
+NOT_APPLICABLE["C11"] = _REQREP + "the remaining clauses (every stream answered before the router adopts it; client handle_reply) are async code over QUIC streams. The reply router's own reaction to non-Message frames is exercised under C02's harness family only for Message frames."
 NOT_APPLICABLE["C03"] = "Subscriber/Publisher can only be built over a live BiStream (quinn streams) and a Client holding an Arc<tokio::Mutex<ClientConnection>>; the batching pipeline is private to them. The parts reachable without a connection are decided elsewhere (batch encode/decode order and round trip: C05; hostile batches: C06; codecs: C14); the hand-out order inside Subscriber::poll_next and finish() are outside the reach of the solver-based tools here."
 
 PROPS["C13"] = {
